@@ -71,7 +71,7 @@ func c12Layout(p *load.Program, r *core.Report, lc *layoutCtx, writers, readers 
 		r.Floor(rule1, 20)
 	}
 	if rule2 != "" {
-		r.Floor(rule2, 17)
+		r.Floor(rule2, 22)
 	}
 	// every constant with a writer has a reader arm and vice versa
 	var ks []string
